@@ -29,7 +29,59 @@ type UnitCase struct {
 
 // genUnit: the grammar-directed generator lives in internal/jgram (the anyjava sub-checks of C01, C02 and C06
 // draw from it as well). No construct is switched off by a known finding at present.
+// deepUnit (eighth seed batch): one method whose body opens 12-40 scopes inside each other - for, enhanced for,
+// while, do, if / else, try-with-resources, try / catch / finally, switch group, synchronized, labelled and bare
+// blocks, lambda blocks - with a parameter, a field and locals visible all the way down and a call on each at the
+// innermost place.
+func deepUnit(t *rapid.T) UnitCase {
+	depth := rapid.SampledFrom([]int{12, 15, 16, 17, 18, 24, 31, 32, 33, 40}).Draw(t, "deepScopes")
+	var open, close []string
+	for k := 0; k < depth; k++ {
+		v := fmt.Sprintf("v%d", k)
+		switch rapid.IntRange(0, 11).Draw(t, "scopeKind") {
+		case 0:
+			open, close = append(open, fmt.Sprintf("for (int %s = 0; %s < 2; %s++) {", v, v, v)), append(close, "}")
+		case 1:
+			open, close = append(open, fmt.Sprintf("for (Sink %s : sinks) {", v)), append(close, "}")
+		case 2:
+			open, close = append(open, "while (flag) {"), append(close, "}")
+		case 3:
+			open, close = append(open, "do {"), append(close, "} while (flag);")
+		case 4:
+			open, close = append(open, "if (flag) {"), append(close, "}")
+		case 5:
+			open, close = append(open, "if (flag) { sink.accept(0); } else {"), append(close, "}")
+		case 6:
+			open, close = append(open, fmt.Sprintf("try (Res %s = new Res()) {", v)), append(close, "}")
+		case 7:
+			open, close = append(open, "try {"), append(close, fmt.Sprintf("} catch (Exception %s) { sink.accept(1); } finally { sink.accept(2); }", v))
+		case 8:
+			open, close = append(open, fmt.Sprintf("switch (n) { case 1: { Sink %s = sink;", v)), append(close, "} default: break; }")
+		case 9:
+			open, close = append(open, "synchronized (this) {"), append(close, "}")
+		case 10:
+			open, close = append(open, fmt.Sprintf("lbl%d: {", k)), append(close, "}")
+		default:
+			open, close = append(open, fmt.Sprintf("Runnable %s = () -> {", v)), append(close, "};")
+		}
+	}
+	var b strings.Builder
+	b.WriteString("package zz.deep;\n\nimport java.util.List;\n\npublic class Deep {\n    private Sink field;\n    private boolean flag;\n    private List<Sink> sinks;\n\n    public void run(Sink sink, int n) {\n        Sink local = sink;\n")
+	for k, o := range open {
+		b.WriteString(strings.Repeat(" ", 8+k%20) + o + "\n")
+	}
+	b.WriteString("sink.accept(n); local.accept(n); field.accept(n);\n")
+	for k := len(close) - 1; k >= 0; k-- {
+		b.WriteString(strings.Repeat(" ", 8+k%20) + close[k] + "\n")
+	}
+	b.WriteString("        local.accept(0);\n    }\n}\n")
+	return UnitCase{Text: b.String(), Labels: map[string]int{"shape.deepNesting": 1, fmt.Sprintf("shape.deepNesting.%dscopes", depth): 1}}
+}
+
 func genUnit(t *rapid.T) UnitCase {
+	if rapid.IntRange(0, 24).Draw(t, "deepNesting") == 24 {
+		return deepUnit(t)
+	}
 	u := jgram.Gen(t)
 	c := UnitCase{Labels: u.Labels, Path: u.Path, Twice: u.Twice}
 	c.Cli = rapid.IntRange(0, 3).Draw(t, "cli")
@@ -284,6 +336,10 @@ func init() {
 	for _, l := range jgram.AllLabels() {
 		labelKnown[l] = true
 		pbt.Count("prod:"+l, 0)
+	}
+	labelKnown["shape.deepNesting"] = true
+	for _, d := range []int{12, 15, 16, 17, 18, 24, 31, 32, 33, 40} {
+		labelKnown[fmt.Sprintf("shape.deepNesting.%dscopes", d)] = true
 	}
 	for l := range conventional {
 		if !labelKnown[l] {
